@@ -452,7 +452,15 @@ func history(t *testing.T, c *vk.C, rng *rand.Rand, i int) map[string]int {
 		steps := 1 + rng.IntN(40)
 		var ms0, ms1 runtime.MemStats
 		maxFrame := 0 // largest frame sent on the current connection: state it legitimately created may be copied later
+		lastKA := time.Now()
 		for s := 0; s < steps; s++ {
+			if time.Since(lastKA) > 90*time.Second {
+				// the canaries are ordinary quiet peers: they send keep-alives (storrent drops a peer that has
+				// been silent for five minutes, which is not the hostile peer's doing)
+				can.SendRaw(refwire.Encode(refwire.Msg{Kind: refwire.KKeepAlive}))
+				can2.SendRaw(refwire.Encode(refwire.Msg{Kind: refwire.KKeepAlive}))
+				lastKA = time.Now()
+			}
 			if h.Closed() {
 				st["disconnected_by_storrent"]++
 				h = connect()
